@@ -41,12 +41,14 @@ bp has no futex (its updater polls).
 * `Rel`: the thread's private view of its reader word is `enc lnest lph = lnest + (lph ? 2^32 : 0)`, `lnest < 2^32`;
 * lock: `AtCall` (the call is made from the thread's normal control flow: pc `out` with nesting 0, or pc `cs` with
   nesting ≥ 1 – this is L2's invariant `Gp.Inv.cs_nest`; calls from a signal handler that interrupts `rcu_read_lock`
-  itself (L2 pc `ld g`/`fence`, property C19) are NOT covered), `reg = true` (what `urcu_assert_debug(registered)`
+  itself at L2 pc `fence` (property C19) are covered separately by the `*_in_handler` theorems with the abstraction
+  `absEvHdl`, see there), `reg = true` (what `urcu_assert_debug(registered)`
   states), `lnest + 1 < 2^32` (what `urcu_assert_debug((tmp & NEST_MASK) != NEST_MASK)` states);
 * lock, oracle: the value returned by the load of `rcu_gp.ctr` has the shape `COUNT + phase bit` (`GpShape`).  This is an
   invariant of the UPDATER side (`rcu_gp.ctr` is initialised to `URCU_GP_COUNT` and only ever XOR-ed with
   `URCU_GP_CTR_PHASE`), assumed here, not proved;
-* unlock: pc `cs`, `1 ≤ lnest` (what `urcu_assert_debug(tmp & NEST_MASK)` states);
+* unlock: pc `cs`, `1 ≤ lnest` (what `urcu_assert_debug(tmp & NEST_MASK)` states); oracle (`hfx`): the value returned by
+  the load of `gp->futex` is an integer (it is an `int32_t`);
 * memb / bp: `urcu_*_has_sys_membarrier = b` in the private view and `sf = true → b = 0` (`sf` = `Cfg.slaveFence`);
 * bp: the TLS pointer `urcu_bp_reader` is set (thread registered) and points to a heap object `obj k`.
 -/
@@ -515,6 +517,137 @@ theorem bp_read_ongoing (fuel : Nat) (env : Env) (inp : List Val) (ls : LState) 
   obtain ⟨hrel, hlt⟩ := hrel
   simp only [bp] at hrel
   exec_simp [«_urcu_bp_read_ongoing», hrel, hp]
+
+/-! ## calls made by a signal handler that interrupted `rcu_read_lock` between its activating store and the end of its
+slave barrier (L2 pc `fence`, property C19)
+
+The handler's sections are nested (`lnest ≥ 1` throughout) and balanced.  In its frames every fence is a compiler barrier
+of the nested path (`cmm_barrier()`), never the interrupted frame's slave barrier, so the abstraction `absEvHdl` keeps all
+fences silent and is otherwise `absEv`.  (A handler that interrupts at L2 pc `ld g` runs after L2's `sigPush`, i.e. at pc
+`out` with nesting 0: covered by the main theorems.) -/
+
+def absEvHdl (fl : Flavor) (ls : LState) (e : Event) : Option (Option LLabel) :=
+  match e with
+  | .fence _ => some none
+  | e => absEv fl ls e
+
+def absRunHdl (sf : Bool) (fl : Flavor) : LState → List Event → Option (List LLabel × LState)
+  | ls, [] => some ([], ls)
+  | ls, e :: es =>
+    match absEvHdl fl ls e with
+    | none => none
+    | some none => absRunHdl sf fl ls es
+    | some (some l) =>
+      match lstep sf ls l with
+      | none => none
+      | some ls1 =>
+        match absRunHdl sf fl ls1 es with
+        | some (labs, ls2) => some (l :: labs, ls2)
+        | none => none
+
+theorem absRunHdl_lrun (sf fl) : ∀ (es : List Event) (ls labs ls'),
+    absRunHdl sf fl ls es = some (labs, ls') → lrun sf ls labs = some ls' := by
+  intro es
+  induction es with
+  | nil => intro ls labs ls' h; simp [absRunHdl] at h; obtain ⟨rfl, rfl⟩ := h; rfl
+  | cons e es ih =>
+    intro ls labs ls' h
+    simp only [absRunHdl] at h
+    split at h
+    · simp at h
+    · exact ih _ _ _ h
+    · split at h
+      · simp at h
+      · rename_i l _ ls1 h1
+        split at h
+        · rename_i labs2 ls2 h2
+          simp only [Option.some.injEq, Prod.mk.injEq] at h
+          obtain ⟨rfl, rfl⟩ := h
+          simp only [lrun, h1]
+          exact ih _ _ _ h2
+        · simp at h
+
+/-- nested `rcu_read_lock` in a handler at pc `fence`: `rInc` -/
+def HdlLockPost (sf : Bool) (fl : Flavor) (env : Env) (ls : LState) (out : Out) : Prop :=
+  absRunHdl sf fl ls out.events =
+      some ([.rInc (ls.lnest + 1, ls.lph)], { ls with lnest := ls.lnest + 1 }) ∧
+    Rel fl out.env { ls with lnest := ls.lnest + 1 } ∧
+    (∀ l, l ≠ fl.rdCtr → out.env.priv l = env.priv l) ∧ out.ctl = .normal
+/-- nested `rcu_read_unlock` in a handler at pc `fence`: `rDec` -/
+def HdlUnlockPost (sf : Bool) (fl : Flavor) (env : Env) (ls : LState) (out : Out) : Prop :=
+  absRunHdl sf fl ls out.events =
+      some ([.rDec (ls.lnest - 1, ls.lph)], { ls with lnest := ls.lnest - 1 }) ∧
+    Rel fl out.env { ls with lnest := ls.lnest - 1 } ∧
+    (∀ l, l ≠ fl.rdCtr → out.env.priv l = env.priv l) ∧ out.ctl = .normal
+
+set_option hygiene false in
+macro "hdl_simp" : tactic =>
+  `(tactic| (exec_simp [«_urcu_memb_read_lock», «_urcu_memb_read_lock_update», «_urcu_memb_read_unlock»,
+               «_urcu_memb_read_unlock_update_and_wakeup», «_urcu_mb_read_lock», «_urcu_mb_read_lock_update»,
+               «_urcu_mb_read_unlock», «_urcu_mb_read_unlock_update_and_wakeup», «_urcu_bp_read_lock»,
+               «_urcu_bp_read_lock_update», «_urcu_bp_read_unlock», «urcu_bp_smp_mb_slave», hrel, HdlLockPost,
+               HdlUnlockPost] <;>
+             (simp [absRunHdl, absEvHdl, absEv, lstep, Rel, decWord_enc, memb, mb, bp, *]
+              try (simp +contextual [*]))))
+
+set_option hygiene false in
+macro "hdl_lock" : tactic =>
+  `(tactic| (obtain ⟨rpc, reg, held, lnest, lph⟩ := ls
+             obtain ⟨hrel, hlt⟩ := hrel
+             obtain ⟨hn, hmax⟩ := hn
+             simp only [memb, mb, bp] at hrel
+             simp only at hlt hpc hn hmax
+             subst hpc
+             have hn0 : (lnest : Int) ≠ 0 := by omega
+             have hn0' : lnest ≠ 0 := by omega
+             hdl_simp))
+
+set_option hygiene false in
+macro "hdl_unlock" : tactic =>
+  `(tactic| (obtain ⟨rpc, reg, held, lnest, lph⟩ := ls
+             obtain ⟨hrel, hlt⟩ := hrel
+             simp only [memb, mb, bp] at hrel
+             simp only at hlt hpc hn
+             subst hpc
+             have hn1 : (lnest : Int) ≠ 1 := by omega
+             have hn1' : lnest ≠ 1 := by omega
+             have hn1'' : 1 ≤ lnest := by omega
+             have h3 : lnest - 1 < 4294967296 := by omega
+             have h4 : ¬ lnest < lnest - 1 := by omega
+             hdl_simp))
+
+theorem memb_read_lock_in_handler (sf : Bool) (fuel : Nat) (env : Env) (inp : List Val) (ls : LState)
+    (hrel : Rel memb env ls) (hpc : ls.rpc = .fence) (hn : 1 ≤ ls.lnest ∧ ls.lnest + 1 < 4294967296) :
+    ∃ out, exec fuel «_urcu_memb_read_lock» env inp = .ok out ∧ HdlLockPost sf memb env ls out := by
+  hdl_lock
+
+theorem memb_read_unlock_in_handler (sf : Bool) (fuel : Nat) (env : Env) (inp : List Val) (ls : LState)
+    (hrel : Rel memb env ls) (hpc : ls.rpc = .fence) (hn : 2 ≤ ls.lnest) :
+    ∃ out, exec fuel «_urcu_memb_read_unlock» env inp = .ok out ∧ HdlUnlockPost sf memb env ls out := by
+  hdl_unlock
+
+theorem mb_read_lock_in_handler (sf : Bool) (fuel : Nat) (env : Env) (inp : List Val) (ls : LState)
+    (hrel : Rel mb env ls) (hpc : ls.rpc = .fence) (hn : 1 ≤ ls.lnest ∧ ls.lnest + 1 < 4294967296) :
+    ∃ out, exec fuel «_urcu_mb_read_lock» env inp = .ok out ∧ HdlLockPost sf mb env ls out := by
+  hdl_lock
+
+theorem mb_read_unlock_in_handler (sf : Bool) (fuel : Nat) (env : Env) (inp : List Val) (ls : LState)
+    (hrel : Rel mb env ls) (hpc : ls.rpc = .fence) (hn : 2 ≤ ls.lnest) :
+    ∃ out, exec fuel «_urcu_mb_read_unlock» env inp = .ok out ∧ HdlUnlockPost sf mb env ls out := by
+  hdl_unlock
+
+theorem bp_read_lock_in_handler (sf : Bool) (fuel : Nat) (env : Env) (inp : List Val) (ls : LState) (k : Nat)
+    (hp : env.priv (.tls "urcu_bp_reader") = some (.ptr (.obj k)))
+    (hrel : Rel (bp k) env ls) (hpc : ls.rpc = .fence) (hn : 1 ≤ ls.lnest ∧ ls.lnest + 1 < 4294967296) :
+    ∃ out, exec fuel «_urcu_bp_read_lock» env inp = .ok out ∧ HdlLockPost sf (bp k) env ls out := by
+  hdl_lock
+
+theorem bp_read_unlock_in_handler (sf : Bool) (fuel : Nat) (env : Env) (inp : List Val) (ls : LState) (k : Nat) (b : Int)
+    (hp : env.priv (.tls "urcu_bp_reader") = some (.ptr (.obj k)))
+    (hb : env.priv (.glob "urcu_bp_has_sys_membarrier") = some (.int b))
+    (hrel : Rel (bp k) env ls) (hpc : ls.rpc = .fence) (hn : 2 ≤ ls.lnest) :
+    ∃ out, exec fuel «_urcu_bp_read_unlock» env inp = .ok out ∧ HdlUnlockPost sf (bp k) env ls out := by
+  by_cases hb0 : b = 0 <;> hdl_unlock
 
 /-- the lazy-registration test at the head of `_urcu_bp_read_lock` / `_urcu_bp_read_ongoing` -/
 def bpRegisterTest : Stmt :=
